@@ -5,7 +5,7 @@
    R  OverlaySpecW and its checker (C03/OverlayDefs, OverlayProofs): soundness on the witness family (partial: see the gap). *)
 From Coq Require Import ZArith List Bool.
 From GeosV.Lib Require Import GeomDefs LocateDefs ValidDefs.
-From GeosV.C03 Require Import GenPreludeOv OverlayDefs OverlayTables OverlayGeom OverlayProofs.
+From GeosV.C03 Require Import GenPreludeOv OverlayDefs OverlayTables OverlayGeom OverlayProofs OverlaySort.
 Import ListNotations.
 Local Open Scope Z_scope.
 
@@ -120,6 +120,12 @@ Theorem side_witness_geometry : forall p A B R q,
         p_en p * p_en p * (len * (snd q * snd q)) <= 2 * (hdet a b q * hdet a b q) * (p_ed p * p_ed p)).
 Proof. exact OverlayProofs.side_witness_geometry. Qed.
 Print Assumptions side_witness_geometry.
+(* consecutive node parameters of a segment are strictly increasing fractions in [0,1]: every sub-edge is non-degenerate *)
+Theorem subedges_increasing : forall a b ss ps t1 t2,
+  In (t1, t2) (consec (node_pars a b ss ps)) ->
+  fst t1 * snd t2 < fst t2 * snd t1 /\ 0 < snd t1 /\ 0 <= fst t1 <= snd t1 /\ 0 < snd t2 /\ 0 <= fst t2 <= snd t2.
+Proof. exact OverlaySort.subedges_increasing. Qed.
+Print Assumptions subedges_increasing.
 Theorem far_inputs_spec : forall p A B x y w,
   params_ok p = true -> 0 < w -> far_inputs p A B (x, y, w) = true ->
   forall c, on_linework A c \/ on_linework B c -> 0 < snd c -> ~ within (p_tn p) (p_td p) (x, y, w) c.
